@@ -13,7 +13,7 @@ use std::collections::{BTreeMap, BTreeSet};
 
 pub struct C07;
 
-pub const CONTAIN: &[&str] = &["req", "opt", "nullable", "tuple", "fixedarr", "alias", "variant"];
+pub const CONTAIN: &[&str] = &["req", "opt", "nullable", "tuple", "tuple_rest", "fixedarr", "alias", "variant"];
 pub const HEAP: &[&str] = &["vec", "map"];
 
 fn def_name(i: usize) -> String {
@@ -26,6 +26,8 @@ fn edge_schema(kind: &str, target: &str) -> Value {
         "req" | "opt" | "alias" | "variant" => r,
         "nullable" => json!({"oneOf": [r, {"type": "null"}]}),
         "tuple" => json!({"type": "array", "items": [r, {"type": "integer"}], "minItems": 2, "maxItems": 2}),
+        // the reference sits in the tail of a tuple (`additionalItems`)
+        "tuple_rest" => json!({"type": "array", "items": [{"type": "string"}], "additionalItems": r, "minItems": 2, "maxItems": 2}),
         "fixedarr" => json!({"type": "array", "items": r, "minItems": 2, "maxItems": 2}),
         "vec" => json!({"type": "array", "items": r}),
         "map" => json!({"type": "object", "additionalProperties": r}),
@@ -195,7 +197,7 @@ fn random_graph(g: &mut G) -> Value {
             edges.push((f, t, "alias"));
             continue;
         }
-        let k = if g.chance(3, 4) { *g.pick(&["req", "opt", "nullable", "tuple", "fixedarr"]) } else { *g.pick(HEAP) };
+        let k = if g.chance(3, 4) { *g.pick(&["req", "opt", "nullable", "tuple", "tuple_rest", "fixedarr"]) } else { *g.pick(HEAP) };
         let k = if kinds[f] == "enum" && k == "req" { "variant" } else { k };
         edges.push((f, t, k));
     }
@@ -211,7 +213,7 @@ impl Property for C07 {
         "C07"
     }
     fn rule(&self) -> String {
-        "directed multigraphs over n definitions (node kinds struct / newtype alias / externally tagged enum / anyOf over non-exclusive objects (flattened members); edge kinds required, optional, nullable, tuple element, fixed-array element, alias, variant payload, plus the heap kinds array items and map value): exhaustive for n=1 (multisets of up to 3 self-loops) and n=2 (at most one edge per ordered pair, 9 edge kinds, all node kinds), a reduced alphabet for n=3 in the thorough tier, random for n<=8 with 0-16 edges; graphs made of bare alias cycles are outside the domain; non-trivial = the schema-level containment graph has a cycle; distinct by canonical graph".into()
+        "directed multigraphs over n definitions (node kinds struct / newtype alias / externally tagged enum / anyOf over non-exclusive objects (flattened members); edge kinds required, optional, nullable, tuple element, tuple tail (additionalItems), fixed-array element, alias, variant payload, plus the heap kinds array items and map value): exhaustive for n=1 (multisets of up to 3 self-loops) and n=2 (at most one edge per ordered pair, 10 edge kinds, all node kinds), a reduced alphabet for n=3 in the thorough tier, random for n<=8 with 0-16 edges; graphs made of bare alias cycles are outside the domain; non-trivial = the schema-level containment graph has a cycle; distinct by canonical graph".into()
     }
     fn assumptions(&self) -> Vec<String> {
         vec![
